@@ -28,6 +28,7 @@ class State:
         self.oblig = {}      # key -> obligation
         self.distinct = set()
         self.hist = {}       # model id -> dict(len, faults bitmask, interventions)
+        self.dropped_ids = set()
 
 
 def is_ref(x):
@@ -126,7 +127,7 @@ def model_ctor(w, st, mtype, params):
     """params: dict name -> python value (caller-owned).  Returns callable doing the construction."""
     S = w.sempler
     if mtype == "lganm":
-        return lambda: S.LGANM(params["W"], params["means"], params["variances"], random_state=params.get("seed"))
+        return lambda: S.LGANM(params["W"], params["means"], params["variances"], random_state=dec(params.get("seed")))
     if mtype == "nd":
         if params.get("check_valid"):
             import warnings
@@ -186,6 +187,8 @@ def register_model(w, st, mid, mtype, obj, spec, from_bufs=()):
     if mtype == "lganm":
         m["law"] = obs_law(w, obj)
     st.models[mid] = m
+    if id(obj) in st.dropped_ids:
+        w.probes["gc.model_id_reused"] += 1
     return m
 
 
@@ -317,7 +320,7 @@ def h_m_call(w, st, rec):
     obj, mtype, method = m["obj"], m["type"], rec["method"]
     site = method_site(mtype, method)
     a = rec.get("args", {})
-    fn, args = call_method(w, st, obj, mtype, method, a, rec.get("seed"))
+    fn, args = call_method(w, st, obj, mtype, method, a, dec(rec.get("seed")))
     pre = [digest(x) for x in args]
     out = w.call(fn, arm=rec.get("arm"))
     seam_calls = dict(w.last_seam_calls)
@@ -358,7 +361,7 @@ def h_m_call(w, st, rec):
     if rec.get("sweep") and rec.get("arm") is None:
         for seam in sorted(seam_calls):
             for k in range(1, seam_calls[seam] + 1):
-                fn2, args2 = call_method(w, st, obj, mtype, method, a, rec.get("seed"))
+                fn2, args2 = call_method(w, st, obj, mtype, method, a, dec(rec.get("seed")))
                 out2 = w.call(fn2, arm=[seam, k, rec.get("sweep_exc", "MemoryError")])
                 w.probes["sweep.fault_positions"] += 1
                 m["fmask"] |= 4
@@ -390,7 +393,7 @@ def twin_compare(w, st, m, rec, out, site):
     t = w.call(model_ctor(w, st, m["type"], tp))
     if t[0] != "ok":
         return
-    fn, _ = call_method(w, st, t[1], m["type"], rec["method"], rec.get("args", {}), rec.get("seed"))
+    fn, _ = call_method(w, st, t[1], m["type"], rec["method"], rec.get("args", {}), dec(rec.get("seed")))
     out2 = w.call(fn)
     w.probes["history.aged_vs_twin"] += 1
     if outcome_digest(*out) != outcome_digest(*out2) and not equalish(plain(out[1]), plain(out2[1])):
@@ -567,7 +570,26 @@ def h_m_new_private(w, st, rec):
     return outcome_digest(*out), out
 
 
-HANDLERS = {"buf.new": h_buf_new, "m.new": h_m_new, "m.call": h_m_call, "u.call": h_u_call,
+def h_m_drop(w, st, rec):
+    """The caller forgets a model: every reference the world holds is released and the
+    collector runs, so that a later object can reuse its address (id)."""
+    import gc
+    m = st.models.pop(rec["m"], None)
+    if m is None:
+        raise Skip()
+    st.dropped_ids.add(id(m["obj"]))
+    for rid in [r for r, v in st.results.items() if v.get("is_model") == rec["m"] or v["obj"] is m["obj"]]:
+        del st.results[rid]
+    for k in (rec["m"] + ".assign", rec["m"] + ".noise"):
+        st.bufs.pop(k, None)
+    del m
+    gc.collect()
+    w.faults["gc"] += 1
+    w.probes["gc.model_dropped"] += 1
+    return "ok:-", None
+
+
+HANDLERS = {"m.drop": h_m_drop, "buf.new": h_buf_new, "m.new": h_m_new, "m.call": h_m_call, "u.call": h_u_call,
             "fault.scribble": h_scribble, "m.new.private": h_m_new_private}
 
 
@@ -771,7 +793,7 @@ def pristine_equal(got, expect):
 # generation
 # ===========================================================================
 
-DTYPES = ["<f8", "<f8", "<f8", "<i8", "<f4"]
+DTYPES = ["<f8", "<f8", "<f8", "<f8", "<i8", "<f4", "|b1"]
 
 
 def gen_config(g):
@@ -783,9 +805,11 @@ def gen_config(g):
         faults = [f for f in all_faults if g.random() < 0.7]
     weights = {"m.new": g.choice([1, 2]), "m.call": g.choice([4, 6, 8]), "u.call": g.choice([0, 2, 4, 8]),
                "repeat": g.choice([1, 2, 3]), "fault": g.choice([1, 2, 3]) if faults else 0}
-    return {"clients": g.randint(1, 4), "length": g.randint(8, 60), "pmax": g.randint(1, 7),
+    return {"clients": g.randint(1, 4), "length": g.randint(8, 60),
+            "pmax": g.randint(1, 7) if g.random() < 0.92 else g.randint(8, 12),
+            "nmax": 15 if g.random() < 0.93 else g.choice([120, 1100]),
             "faults": faults, "weights": weights, "max_models": g.randint(2, 5),
-            "seeds": [0, g.choice([1, 42]), g.getrandbits(32)],
+            "seeds": G.seed_alphabet(g),
             "sweep_rate": g.choice([0, 0, 0.1, 0.4]), "twin_rate": g.choice([0.1, 0.3, 0.6]),
             "fault_rate": g.choice([0.05, 0.1, 0.2]), "types": g.choice([["lganm", "nd", "anm"], ["lganm"], ["nd"], ["anm"],
                                                                         ["lganm", "nd"], ["lganm", "anm"]])}
@@ -865,7 +889,7 @@ def gen_model(g, gs, cfg, ops, c, invalid=False):
         if invalid:
             A = U.cyclic(g, p).astype(float)
         W = A
-        rec["A"] = arg(cast(A, g.choice(["<f8", "<i8"]), g), must_nd=True)
+        rec["A"] = arg(cast(A, g.choice(["<f8", "<f8", "<i8", "<i8", "|b1"]), g), must_nd=True)
         rec["assign"] = [G.rand_assign_spec(g, allow_param=True) for _ in range(p)]
         rec["noise"] = [G.rand_noise_spec(g) if g.random() < 0.75 else ["paramnoise", G.r2(g, -1, 1), G.r2(g, 0.2, 1.5)]
                         for _ in range(p)]
@@ -911,7 +935,7 @@ def gen_m_call(g, gs, cfg, mid, force_method=None):
             if g.random() < 0.5:
                 a["n"] = g.randint(1, 10)
         else:
-            a["n"] = g.randint(1, 15)
+            a["n"] = g.randint(1, cfg["nmax"])
             rec["seed"] = g.choice(seeds + [None])
         if invalid:
             kind = g.choice(["do", "shift", "noise"])
@@ -921,7 +945,7 @@ def gen_m_call(g, gs, cfg, mid, force_method=None):
         rec["args"] = a
     elif mtype == "anm":
         rec["method"] = "sample"
-        a = {"n": g.randint(1, 15), "do": G.anm_ivs(g, p), "shift": G.anm_ivs(g, p), "noise": G.anm_ivs(g, p)}
+        a = {"n": g.randint(1, cfg["nmax"]), "do": G.anm_ivs(g, p), "shift": G.anm_ivs(g, p), "noise": G.anm_ivs(g, p)}
         if g.random() < 0.15:
             for k in ("do", "shift", "noise"):
                 if isinstance(a[k], list) and a[k] and g.random() < 0.5:
@@ -942,7 +966,7 @@ def gen_m_call(g, gs, cfg, mid, force_method=None):
         rec["method"] = method
         nodes = list(range(p))
         if method == "sample":
-            rec["args"] = {"n": g.randint(1, 15)}
+            rec["args"] = {"n": g.randint(1, cfg["nmax"])}
             rec["seed"] = g.choice(seeds + [None])
         elif method == "marginal":
             k = g.randint(1, p)
@@ -1088,13 +1112,27 @@ def generate(run_seed):
                     ops.append({"c": c, "op": "np.perturb", "kind": "draw", "dist": g.choice(["normal", "uniform", "choice"]),
                                 "n": g.randint(1, 9)})
                 elif r < 0.7:
-                    ops.append({"c": c, "op": "np.perturb", "kind": "reseed", "seed": g.choice(cfg["seeds"])})
+                    ops.append({"c": c, "op": "np.perturb", "kind": "reseed", "seed": G.seed_value(g.choice(cfg["seeds"]))})
                 elif r < 0.85:
                     ops.append({"c": c, "op": "py.random", "kind": "seed", "seed": g.getrandbits(16)})
                 else:
                     ops.append({"c": c, "op": "entropy.draw", "n": 1})
             elif f == "gc":
-                ops.append({"c": c, "op": "gc"})
+                victims = [mid for mid, mm in gs.models.items() if not mm["derived"]]
+                if len(victims) >= 1 and g.random() < 0.6:
+                    mid = sc.choice(sorted(victims))
+                    mt = gs.models[mid]["type"]
+                    ops.append({"c": c, "op": "m.drop", "m": mid})
+                    del gs.models[mid]
+                    gs.repeatable = [r for r in gs.repeatable if r.get("m") != mid]
+                    gs.agenda = [r for r in gs.agenda if not str(r.get("target", "")).startswith(mid + ".")]
+                    # a new model of the same class right away: its id is likely to be the dropped one's
+                    saved = cfg["types"]
+                    cfg["types"] = [mt]
+                    gen_model(g, gs, cfg, ops, c)
+                    cfg["types"] = saved
+                else:
+                    ops.append({"c": c, "op": "gc"})
             elif gs.agenda:
                 rec = gs.agenda.pop(sc.randrange(len(gs.agenda)))
                 rec["c"] = c
@@ -1163,7 +1201,7 @@ REQUIRED_PROBES = ["iv.do.non_source", "iv.shift.non_source", "iv.noise.non_sour
                    "scribble.out:utils.all_dags", "scribble.out:utils.split_data", "meek_rule_fired",
                    "all_dags.undirected_edge", "topological_ordering.with_edges", "split_data.n>=2",
                    "op_after_failed_op_same_model", "natural_LinAlgError", "history.first_vs_later",
-                   "history.aged_vs_twin", "sweep.fault_positions", "sweep.utils", "obs_law.checked", "buf.view",
+                   "history.aged_vs_twin", "sweep.fault_positions", "sweep.utils", "obs_law.checked", "buf.view", "gc.model_dropped", "gc.model_id_reused",
                    "nd.check_valid"]
 
 
